@@ -965,6 +965,32 @@ func c08(tier string, seed int64) {
 			hlib.Emit(J{"kind": "contract_snappy", "class": class, "len": sz, "clen": len(sc), "ok": serr == nil && bytes.Equal(sd, x)})
 		}
 	}
+	// wrapper correspondence: small inputs with the library's own block as the oracle answer
+	wrapIn := [][]byte{{}, {7}, {0}, []byte("abc"), []byte("hello, world"), expand(Desc{"zero", 300, 0}), expand(Desc{"rep", 255, 9}), expand(Desc{"rep", 256, 9}),
+		expand(Desc{"lcg", 40, 3}), expand(Desc{"period", 200, 4}), expand(Desc{"zero", 16, 0}), expand(Desc{"zero", 17, 0}), expand(Desc{"zero", 2000, 0}),
+		expandClass("text", 400, 5), expandClass("rows", 500, 6), expand(Desc{"ramp", 64, 250})}
+	for _, x := range wrapIn {
+		bound := golz4.CompressBlockBound(len(x))
+		dst := make([]byte, bound)
+		w, err := golz4.CompressBlock(x, dst, nil)
+		if err != nil {
+			hlib.Emit(J{"kind": "wrap_failed", "x": hex.EncodeToString(x)})
+			continue
+		}
+		var raw, wl, d1, d2 bytes.Buffer
+		e1 := lz4.Compressor{}.Compress(bytes.NewBuffer(x), &raw)
+		e2 := lz4.Compressor{}.CompressWithLength(bytes.NewBuffer(x), &wl)
+		e3 := lz4.Compressor{}.Decompress(bytes.NewReader(raw.Bytes()), &d1)
+		e4 := lz4.Compressor{}.DecompressWithLength(bytes.NewReader(wl.Bytes()), &d2)
+		hlib.Emit(J{"kind": "wrap", "x": hex.EncodeToString(x), "block": hex.EncodeToString(dst[:w]), "bound": bound,
+			"raw_ok": e1 == nil, "raw": hex.EncodeToString(raw.Bytes()), "withlen_ok": e2 == nil, "withlen": hex.EncodeToString(wl.Bytes()),
+			"dec_raw_ok": e3 == nil, "dec_raw": hex.EncodeToString(d1.Bytes()), "dec_withlen_ok": e4 == nil, "dec_withlen": hex.EncodeToString(d2.Bytes())})
+	}
+	for _, in := range [][]byte{{}, {0}, {0, 0, 0}, {0, 0, 0, 0}, {0, 0, 0, 0, 5}, {0, 0, 0, 0, 5, 6, 7}, {0, 0, 0, 0, 0}} {
+		var d bytes.Buffer
+		err := lz4.Compressor{}.DecompressWithLength(bytes.NewReader(in), &d)
+		hlib.Emit(J{"kind": "wrapdec", "input": hex.EncodeToString(in), "ok": err == nil, "out": hex.EncodeToString(d.Bytes())})
+	}
 	// corner inputs of the wrappers
 	{
 		var out bytes.Buffer
